@@ -1,10 +1,102 @@
 package main
 
+import (
+	"fmt"
+	"go/token"
+	"go/types"
+	"strings"
+)
+
 // registerModels installs Go-implemented models of library functions (those that are awkward to state as contracts).
 func registerModels(e *Engine) {
+	// sync.Mutex / sync.RWMutex: ghost held(mu) in {0 none, 1 read, 2 write}; lockuses(mu) counts acquisitions.
+	lock := func(mode string, acquire bool) modelFn {
+		return func(a *Act, st *State, args []Val, resT types.Type, pos token.Pos) Val {
+			vc := a.vc
+			mu := args[0].S
+			hk, hs := "G:held", "(Array Int Int)"
+			uk := "G:lockuses"
+			H := vc.getHeap(st, hk, hs)
+			U := vc.getHeap(st, uk, hs)
+			props := a.props
+			if acquire {
+				vc.oblige(a.oblName("lock-not-held"), "lock", props, a.pos(pos), st.guard, eq(sel(H, mu), "0"), "mutex is not already held by this call (self-deadlock)")
+				if a.optOn("single-critical-section") {
+					vc.oblige(a.oblName("single-critical-section"), "lock", props, a.pos(pos), st.guard, eq(sel(U, mu), "0"),
+						"the method takes its lock once: all shared accesses lie in one critical section (premise of the linearizability argument)")
+				}
+				vc.setHeap(st, hk, hs, store(H, mu, mode))
+				vc.setHeap(st, uk, hs, store(U, mu, "(+ 1 "+sel(U, mu)+")"))
+				a.logHeapAt(hk, mu)
+				a.logHeapAt(uk, mu)
+				top := a
+				if a.top != nil {
+					top = a.top
+				}
+				top.locks = appendUnique(top.locks, mu)
+			} else {
+				vc.oblige(a.oblName("unlock-held"), "lock", props, a.pos(pos), st.guard, eq(sel(H, mu), mode), "mutex is held in the matching mode when released")
+				vc.setHeap(st, hk, hs, store(H, mu, "0"))
+				a.logHeapAt(hk, mu)
+			}
+			return Val{Sort: "Tuple"}
+		}
+	}
+	e.models["sync.RWMutex.Lock"] = lock("2", true)
+	e.models["sync.RWMutex.Unlock"] = lock("2", false)
+	e.models["sync.RWMutex.RLock"] = lock("1", true)
+	e.models["sync.RWMutex.RUnlock"] = lock("1", false)
+	e.models["sync.Mutex.Lock"] = lock("2", true)
+	e.models["sync.Mutex.Unlock"] = lock("2", false)
+}
+
+func appendUnique(xs []string, x string) []string {
+	for _, y := range xs {
+		if y == x {
+			return xs
+		}
+	}
+	return append(xs, x)
+}
+
+// guardOf returns the mutex address guarding field (struct type t, field name), if declared via "guarded".
+func (a *Act) guardOf(t types.Type, field string, base string) string {
+	n, ok := types.Unalias(t).(*types.Named)
+	if !ok || n.Obj().Pkg() == nil {
+		return ""
+	}
+	mu := a.eng.guarded[n.Obj().Pkg().Path()+"."+n.Obj().Name()+"."+field]
+	if mu == "" {
+		return ""
+	}
+	si := a.vc.g.structInfoOf(t)
+	for i, f := range si.Fields {
+		if f.Name == mu {
+			return app(a.vc.g.fldFn(si, i), base)
+		}
+	}
+	return ""
+}
+
+// checkGuard emits the lock-discipline obligation for an access to guarded data.
+func (a *Act) checkGuard(st *State, mu string, write bool, what string, pos token.Pos) {
+	if mu == "" {
+		return
+	}
+	H := a.vc.getHeap(st, "G:held", "(Array Int Int)")
+	goal := not(eq(sel(H, mu), "0"))
+	desc := "read of " + what + " happens with its mutex held"
+	if write {
+		goal = eq(sel(H, mu), "2")
+		desc = "write of " + what + " happens with its mutex held for writing"
+	}
+	a.vc.oblige(a.oblName("lock-guard"), "lock", a.props, a.pos(pos), st.guard, goal, desc)
 }
 
 // extraObligations adds property-specific structural obligations (send-site enumeration, format side conditions, ...).
 func (e *Engine) extraObligations(prop string, cfg *PropCfg) []*Obl {
 	return nil
 }
+
+var _ = fmt.Sprint
+var _ = strings.Contains
